@@ -124,6 +124,45 @@ def p_latest_per_name(fs):
     return None
 
 
+def p_instances(fs):
+    """the same selections when the packages are given as DebArchive instances - built field by field (no file name) or by
+    from_filename - instead of file names"""
+    for how in ('built field by field', 'from_filename'):
+        parsed = [package.DebArchive.from_filename(f) for f in fs]
+        if how == 'from_filename':
+            ars = parsed
+        else:
+            ars = [package.DebArchive(name=a.name, version=a.version, architecture=a.architecture) for a in parsed]
+        names = sorted(set(a.name for a in ars))
+        try:
+            r = package.find_latest_version(list(ars))
+            if len(names) > 1:
+                return 'instances (%s) of several names %r accepted by find_latest_version' % (how, names)
+            if not any(r is a for a in ars):
+                return 'instances (%s): the selected %r is not one of the inputs' % (how, r)
+            for a in ars:
+                if a.version.compare(r.version) > 0:
+                    return 'instances (%s): input %s %s exceeds the selected %s' % (how, a.name, a.version, r.version)
+        except ValueError:
+            if len(names) == 1:
+                return 'instances (%s) of one name raise ValueError' % how
+        except Exception as e:  # noqa
+            return 'instances (%s): find_latest_version raises %s' % (how, type(e).__name__)
+        try:
+            rs = package.find_latest_versions(list(ars))
+        except Exception as e:  # noqa
+            return 'instances (%s): find_latest_versions raises %s' % (how, type(e).__name__)
+        if sorted(rs) != names:
+            return 'instances (%s): keys %r, names present %r' % (how, sorted(rs), names)
+        for n, sel in rs.items():
+            if sel.name != n or not any(sel is a for a in ars):
+                return 'instances (%s): selected %r for %r is not an input of that name' % (how, sel, n)
+            for a in ars:
+                if a.name == n and a.version.compare(sel.version) > 0:
+                    return 'instances (%s): for %r input version %s exceeds the selected %s' % (how, n, a.version, sel.version)
+    return None
+
+
 def p_mixed(fs):
     names = set(package.DebArchive.from_filename(f).name for f in fs)
     if len(names) < 2:
@@ -220,6 +259,18 @@ def run(ctx):
     fails += ctx.prop('prop:latest-is-maximum', same, p_latest)
     fails += ctx.prop('prop:latest-per-name', same[:2000] + mixed, p_latest_per_name)
     fails += ctx.prop('prop:mixed-names', mixed, p_mixed)
+    fails += ctx.prop('prop:instances', same[:ctx.n(1500, 15000)] + mixed[:ctx.n(1500, 15000)], p_instances)
+    # long lists (beyond 4096 and 65536 entries): few names, each spread over the whole list, the maximum anywhere
+    longs = []
+    for size in [5000, 9000, 70000] + ([] if ctx.quick() else [300000]):
+        ns = rng.sample(NAMES, 3)
+        fs = ['%s_%d.%d-%d_all.deb' % (rng.choice(ns), rng.randint(0, 40), rng.randint(0, 99), rng.randint(0, 9)) for _ in range(size)]
+        for j, n in enumerate(ns):
+            fs[rng.choice([0, size // 3, 4095, 4096, size - 1]) - j] = '%s_41.%d_all.deb' % (n, j)      # the maximum of each name
+        longs.append(fs)
+        longs.append([f for f in fs if f.startswith(ns[0] + '_')])
+    fails += [(f[0][:3] + ['... %d file names' % len(f[0])], f[1]) for f in ctx.prop('prop:latest-per-name:long', longs, p_latest_per_name)]
+    fails += [(f[0][:3] + ['... %d file names' % len(f[0])], f[1]) for f in ctx.prop('prop:latest-is-maximum:long', longs[1::2], p_latest)]
     bad += ctx.compare('corr:find_latest_version', [('find_latest_version', [l]) for l in same + mixed[:2000] + [[]]], impl)
     bad += ctx.compare('corr:find_latest_versions', [('find_latest_versions', [l]) for l in mixed + same[:2000] + [[]]], impl)
 
